@@ -495,6 +495,14 @@ class Ctx:
         if not exprs:
             return []
         t_b = time.time()
+        # the required modules (and what they depend on) must be up to date:
+        # some are used by the correspondence only and are in no Props cone
+        need = [r[3:].replace('.', '/') + '.v' for r in requires if r.startswith('DV.')]
+        if need and need != getattr(self, '_built_for_eval', None):
+            ok, bad, log, _ = build_cone(need)
+            if not ok:
+                raise CoqEvalError(bad, log[-3000:])
+            self._built_for_eval = need
         head = ''.join('Require Import %s.\n' % r for r in requires)
         head += (
             'Require Import ZArith List String. Import ListNotations.\n'
